@@ -92,7 +92,8 @@ var callDims = []dimTable{
 	{"method", []string{"nested", "long", "dots-dashes", "upper", "utf8", "query", "registered"}, []string{"nested", "registered"}},
 	{"body", []string{"empty", "one", "255", "256", "4k", "64k", "300k", "binary", "zeros"}, []string{"one", "255", "4k"}},
 	{"codec", []string{"json", "protobuf", "form", "xml", "plain", "thrift", "unregistered"}, []string{"json", "plain"}},
-	{"typed", []string{"json+typed", "json+bytes", "xml+typed", "xml+bytes", "form+typed", "form+bytes", "plain+typed", "plain+bytes", "pb+typed", "pb+bytes", "json-accept-xml"}, []string{"json+typed", "json+bytes"}},
+	{"typed", []string{"json", "xml", "form", "plain", "pb", "json-accept-xml"}, []string{"json"}},
+	{"result", []string{"typed"}, []string{"typed"}},
 	{"meta", []string{"only-pid", "dup-keys", "punct", "utf8", "empty-value", "many", "long-value", "preset-realip", "dup-realip", "case-variants"}, []string{"only-pid", "dup-keys", "preset-realip"}},
 	{"pipe", []string{"gzip", "gzip-md5"}, nil},
 	{"status", []string{"404", "500", "502", "custom", "negative", "big", "code-99", "code-200", "handler-100", "handler-102", "handler-105", "handler-150", "handler-199",
@@ -331,12 +332,17 @@ func apply(s *Spec, dim, class string, r *core.Rand, tame bool) {
 			break
 		}
 		if class == "json-accept-xml" {
-			s.Kind, s.ResultAs = "json", "typed"
+			s.Kind = "json"
 			s.Meta = append(s.Meta, pxy.KV{K: erpc.MetaAcceptBodyCodec, V: "120"})
 			break
 		}
-		parts := strings.SplitN(class, "+", 2)
-		s.Kind, s.ResultAs = parts[0], parts[1]
+		s.Kind = class
+	case "result":
+		// the caller decodes the reply into the typed value (baseline: raw reply bytes)
+		if s.Kind == "bytes" || s.Kind == "rbytes" {
+			s.Kind = "json"
+		}
+		s.ResultAs = "typed"
 	case "meta":
 		s.Meta = metaOf(class, r)
 	case "pipe":
@@ -356,7 +362,7 @@ func apply(s *Spec, dim, class string, r *core.Rand, tame bool) {
 	case "rcodec":
 		s.RCodec = 'x'
 		if class == "json-sets-xml" {
-			s.Kind, s.ResultAs = "json", "typed"
+			s.Kind = "json"
 		}
 	case "reply":
 		s.Reply = class
@@ -543,6 +549,9 @@ func specsOf(g Group, gi int) []Spec {
 				continue
 			}
 			if d.name == "codec" && s.Kind != "bytes" {
+				continue
+			}
+			if d.name == "result" && (s.Kind == "bytes" || s.Kind == "rbytes") {
 				continue
 			}
 			c := cl[r.Intn(len(cl))]
@@ -818,7 +827,11 @@ func runPair(t *pxy.Topo, s *Spec) pairResult {
 		res.viols = append(res.viols, viol{"other-backend-invoked", fmt.Sprintf("backend %d was chosen by the forwarder function but backend %d handled the request %d time(s)", b, other, pl.Count(other)), nil})
 	}
 	if nq != nd {
-		res.viols = append(res.viols, viol{"backend-invocations", fmt.Sprintf("sent directly the request reached the backend handler %d time(s), through the proxy %d time(s)", nd, nq), nil})
+		extra := ""
+		if s.Op == "call" {
+			extra = fmt.Sprintf(" (direct status %+v, proxied status %+v)", d.Triple, q.Triple)
+		}
+		res.viols = append(res.viols, viol{"backend-invocations", fmt.Sprintf("sent directly the request reached the backend handler %d time(s), through the proxy %d time(s)%s", nd, nq, extra), nil})
 	}
 	if s.Op == "call" {
 		res.viols = append(res.viols, compareOutcome(d, q)...)
@@ -846,7 +859,32 @@ func runPair(t *pxy.Topo, s *Spec) pairResult {
 		res.nontrivial = true
 	}
 	if len(res.viols) > 0 {
-		w := map[string]interface{}{"request": s, "request_meta": kvs(s.Meta), "request_body": trunc(s.Body), "handler_reply_meta": kvs(s.RMeta),
+		// report the primary symptom: a request that did not reach the handler the same number of times, or came
+		// back with another status, differs in body / codec / reply metadata as a consequence
+		var all []string
+		has := map[string]bool{}
+		for _, v := range res.viols {
+			all = append(all, v.symptom)
+			has[v.symptom] = true
+		}
+		consequential := map[string]bool{}
+		if has["backend-invocations"] {
+			for _, x := range []string{"status-differs", "body-differs", "codec-differs", "meta-differs", "meta-extra-key"} {
+				consequential[x] = true
+			}
+		} else if has["status-differs"] {
+			for _, x := range []string{"body-differs", "codec-differs", "meta-differs", "meta-extra-key"} {
+				consequential[x] = true
+			}
+		}
+		var primary []viol
+		for _, v := range res.viols {
+			if !consequential[v.symptom] {
+				primary = append(primary, v)
+			}
+		}
+		res.viols = primary
+		w := map[string]interface{}{"all_symptoms": all, "request": s, "request_meta": kvs(s.Meta), "request_body": trunc(s.Body), "handler_reply_meta": kvs(s.RMeta),
 			"backend_invocations_direct": nd, "backend_invocations_proxied": nq, "caller_address": t.CallerAddr()}
 		if s.Op == "call" {
 			w["direct"] = map[string]interface{}{"status": d.Triple, "result": trunc(d.Body), "reply_meta": kvs(d.RMeta), "reply_codec": d.RCodec}
@@ -994,7 +1032,7 @@ func forwarderNoticed(t *pxy.Topo) bool {
 	}
 	all := true
 	t.F.RangeSession(func(s erpc.Session) bool {
-		if s.Health() {
+		if s.RemoteAddr().String() == t.Srv[0].Addr() && s.Health() {
 			all = false
 		}
 		return true
